@@ -123,6 +123,7 @@ def main() -> int:
         scenario = None
         if args.replay:
             scenario = json.loads(Path(args.replay).read_text())
+            rep.extra["replay_of"] = str(args.replay)
         mod.main(rep, scenario)
     except MachineryError as e:
         print(f"MACHINERY-FAILURE property={pid}: {e}")
